@@ -533,6 +533,9 @@ func (s *sim) gossipSlot(slot uint64, blk *blockRec, parent *blockRec, hb *state
 				_, x := gossipval.ValidateAttestation(ctx, subnet, att, g)
 				return x
 			})
+			if pos == 0 || r.Chance(1, 4) {
+				s.wireCheck("attestation", spec.Wrap(att), func() sszPlain { return spec.Wrap(new(phase0.Attestation)) }, false)
+			}
 			s.judge(g, "attestation", what, exp, res, p)
 			if s.stop {
 				return
@@ -624,6 +627,7 @@ func (s *sim) gossipSlot(slot uint64, blk *blockRec, parent *blockRec, hb *state
 				exp = expTiming
 			}
 			res, p := run(signed)
+			s.wireCheck("aggregate_and_proof", spec.Wrap(signed), func() sszPlain { return spec.Wrap(new(phase0.SignedAggregateAndProof)) }, false)
 			s.judge(g, "aggregate_and_proof", what, exp, res, p)
 			if !s.stop && exp == expAccept {
 				res, p = run(signed)
@@ -655,6 +659,7 @@ func (s *sim) gossipSlot(slot uint64, blk *blockRec, parent *blockRec, hb *state
 					break
 				}
 				res, p := validate(func() gossipval.GossipValidatorResult { return gossipval.ValidateVoluntaryExit(ctx, &ex, g) })
+				s.wireCheck("voluntary_exit", &ex, func() sszPlain { return new(phase0.SignedVoluntaryExit) }, true)
 				s.judge(g, "voluntary_exit", what, expAccept, res, p)
 				if !s.stop {
 					res, p = validate(func() gossipval.GossipValidatorResult { return gossipval.ValidateVoluntaryExit(ctx, &ex, g) })
@@ -677,6 +682,7 @@ func (s *sim) gossipSlot(slot uint64, blk *blockRec, parent *blockRec, hb *state
 					break
 				}
 				res, p := validate(func() gossipval.GossipValidatorResult { return gossipval.ValidateProposerSlashing(ctx, &sl, g) })
+				s.wireCheck("proposer_slashing", &sl, func() sszPlain { return new(phase0.ProposerSlashing) }, true)
 				s.judge(g, "proposer_slashing", what, expAccept, res, p)
 				if !s.stop {
 					res, p = validate(func() gossipval.GossipValidatorResult { return gossipval.ValidateProposerSlashing(ctx, &sl, g) })
@@ -699,6 +705,7 @@ func (s *sim) gossipSlot(slot uint64, blk *blockRec, parent *blockRec, hb *state
 					break
 				}
 				res, p := validate(func() gossipval.GossipValidatorResult { return gossipval.ValidateAttesterSlashing(ctx, &sl, g) })
+				s.wireCheck("attester_slashing", spec.Wrap(&sl), func() sszPlain { return spec.Wrap(new(phase0.AttesterSlashing)) }, false)
 				s.judge(g, "attester_slashing", what, expAccept, res, p)
 				if !s.stop {
 					res, p = validate(func() gossipval.GossipValidatorResult { return gossipval.ValidateAttesterSlashing(ctx, &sl, g) })
@@ -792,6 +799,7 @@ func (s *sim) gossipSlot(slot uint64, blk *blockRec, parent *blockRec, hb *state
 					exp = expTiming
 				}
 				res, p := run(subnet, m)
+				s.wireCheck("sync_committee_message", m, func() sszPlain { return new(altair.SyncCommitteeMessage) }, true)
 				s.judge(g, "sync_committee", what, exp, res, p)
 			}
 			if aggregator < 0 || s.stop {
@@ -852,6 +860,7 @@ func (s *sim) gossipSlot(slot uint64, blk *blockRec, parent *blockRec, hb *state
 				exp = expTiming
 			}
 			res, p := run(signed)
+			s.wireCheck("sync_contribution_and_proof", spec.Wrap(signed), func() sszPlain { return spec.Wrap(new(altair.SignedContributionAndProof)) }, true)
 			s.judge(g, "sync_contribution", what, exp, res, p)
 			if !s.stop && exp == expAccept {
 				res, p = run(signed)
